@@ -22,206 +22,12 @@ func checkC06(c *an.Ctx) {
 	if !r.ok {
 		return
 	}
-	c.OK("C06.0", "runner roles", r.run.Pos(), "execute=%s before=%s after=%s condition=%s", an.Short(r.execute), an.Short(r.before), an.Short(r.after), an.Short(r.cond))
-	phaseOrder(c, r, "C06.1")
+	c.OK("C06.0", "runner roles", r.run.Pos(), "job walk in %s", an.Short(r.execute))
+	checkRunTable(c, "C06.1", map[string]bool{"order-task": true, "stop-on-failure": true, "complete-on-success": true})
+	runIsSynchronous(c, r, "C06.1")
 	compileNesting(c, r, "C06.2")
 	executeTable(c, r, "C06.3", false)
-	hookTables(c, r, "C06.4")
-}
-
-type phase struct {
-	name string
-	call *ssa.Call
-}
-
-func (r *runnerRoles) phases() []phase {
-	return []phase{
-		{"condition", r.callOf[r.cond]},
-		{"before", r.callOf[r.before]},
-		{"compile", r.compileCall},
-		{"execute", r.callOf[r.execute]},
-		{"store", r.callOf[r.store]},
-		{"after", r.callOf[r.after]},
-	}
-}
-
-// exploreRun explores Run from the instruction after `from` with the given
-// phase failing (failAt = phase name, "" = none) and condition result meets.
-func exploreRun(c *an.Ctx, r *runnerRoles, failAt string, meets bool, extraEffect func(ssa.Instruction, *an.State) string) []an.Outcome {
-	phs := r.phases()
-	errs := map[ssa.Value]string{}
-	for _, ph := range phs {
-		for _, e := range errOf(ph.call) {
-			errs[e] = ph.name
-		}
-	}
-	if r.startCall != nil {
-		for _, e := range errOf(r.startCall) {
-			errs[e] = "start"
-		}
-	}
-	// the context was resolved and the output created: what follows is the task's own phases
-	for _, e := range errOf(r.callOf[r.ctxFn]) {
-		errs[e] = "context"
-	}
-	if r.newOutputCall != nil {
-		for _, e := range errOf(r.newOutputCall) {
-			errs[e] = "output"
-		}
-	}
-	meetsVals := map[ssa.Value]bool{}
-	for _, v := range extractOf(r.callOf[r.cond], 0) {
-		meetsVals[v] = true
-	}
-	ex := &an.Explorer{P: c.P, NoReturn: noReturn, MaxDepth: 1,
-		Inline: func(f *ssa.Function) bool { return f.Parent() == r.run },
-	}
-	ex.Atom = func(v ssa.Value) (an.AVal, bool) {
-		if name, ok := errs[v]; ok {
-			if name == failAt {
-				return an.AVal{K: an.ANonNil}, true
-			}
-			return an.AVal{K: an.ANil}, true
-		}
-		if meetsVals[v] {
-			return an.ABool(meets), true
-		}
-		return an.AVal{}, false
-	}
-	ex.Effect = func(in ssa.Instruction, st *an.State) string {
-		for _, ph := range phs {
-			if in == ssa.Instruction(ph.call) {
-				return ph.name
-			}
-		}
-		if r.startCall != nil && in == ssa.Instruction(r.startCall) {
-			return "start"
-		}
-		if sto, ok := in.(*ssa.Store); ok {
-			ap := an.AccessPath(sto.Addr)
-			if r.task != nil && an.SameValue(ap.Base, r.task) && len(ap.Fields) == 1 {
-				switch ap.Fields[0] {
-				case "Skipped", "Errored", "ExitCode", "Error":
-					return fmt.Sprintf("t.%s:=%s", ap.Fields[0], st.Eval(sto.Val))
-				}
-			}
-		}
-		if extraEffect != nil {
-			return extraEffect(in, st)
-		}
-		return ""
-	}
-	// start after the context resolution
-	return ex.RunFrom(r.run, r.callOf[r.ctxFn], map[ssa.Value]an.AVal{})
-}
-
-func phaseOrder(c *an.Ctx, r *runnerRoles, rule string) {
-	names := []string{"condition", "before", "compile", "execute", "store", "after"}
-	// context resolution must succeed for the rest to run: seed its error nil
-	rows := []struct {
-		name, failAt string
-		meets        bool
-		want         []string
-		retNonNil    bool
-	}{
-		{"all succeed", "", true, names, false},
-		{"condition cannot be evaluated", "condition", true, names[:1], true},
-		{"condition false", "", false, names[:1], false},
-		{"before fails", "before", true, names[:2], true},
-		{"compile fails", "compile", true, names[:3], true},
-		{"command fails", "execute", true, names[:4], true},
-	}
-	var table []string
-	for _, row := range rows {
-		ctxErrs := errOf(r.callOf[r.ctxFn])
-		outs := exploreRun(c, r, row.failAt, row.meets, nil)
-		_ = ctxErrs
-		key := an.Short(r.run) + ":row " + row.name
-		bad := ""
-		var cells []string
-		for _, o := range outs {
-			var seq, other []string
-			for _, e := range o.Effects {
-				isPhase := false
-				for _, n := range names {
-					if e == n {
-						isPhase = true
-					}
-				}
-				if isPhase {
-					seq = append(seq, e)
-				} else if e != "start" {
-					other = append(other, e)
-				}
-			}
-			cells = append(cells, strings.Join(o.Effects, ",")+"→"+o.End)
-			if strings.Join(seq, ",") != strings.Join(row.want, ",") {
-				bad = fmt.Sprintf("phases executed %v, want %v", seq, row.want)
-			}
-			if o.End != "return" {
-				bad = "path ends with " + o.End
-				continue
-			}
-			ret := o.Ret[len(o.Ret)-1]
-			if row.retNonNil && ret.K != an.ANonNil {
-				bad = "Run does not return a non-nil error"
-			}
-			if row.name == "condition false" {
-				skipped := false
-				for _, e := range other {
-					if e == "t.Skipped:=true" {
-						skipped = true
-					}
-				}
-				if !skipped {
-					bad = "the task is not marked skipped"
-				}
-				if ret.K != an.ANil {
-					bad = "a skipped task must not report an error"
-				}
-			}
-			if row.name == "all succeed" {
-				// Run's result is the after phase's result or nil
-			}
-		}
-		if len(cells) == 0 {
-			bad = "no feasible path"
-		}
-		table = append(table, fmt.Sprintf("%-32s -> %s", row.name, strings.Join(dedup(cells), " | ")))
-		if bad != "" {
-			c.Bad(rule, key, r.run.Pos(), "%s: %s", row.name, bad)
-		} else {
-			c.OK(rule, key, r.run.Pos(), "%s", strings.Join(dedup(cells), " | "))
-		}
-	}
-	c.Tables["run-phases"] = table
-	// synchronous: no go edge from Run to Execute
-	syncOK := true
-	reach := c.P.Reach([]*ssa.Function{r.run}, func(e an.CallEdge) bool { return an.InModule(e.Callee) })
-	for f := range reach {
-		an.EachInstr(f, func(in ssa.Instruction) {
-			g, ok := in.(*ssa.Go)
-			if !ok {
-				return
-			}
-			sub := c.P.Reach(c.P.Callees(&g.Call), func(e an.CallEdge) bool { return an.InModule(e.Callee) })
-			for h := range sub {
-				an.EachInstr(h, func(y ssa.Instruction) {
-					if _, ok := isExecCall(y); ok {
-						syncOK = false
-						c.Bad(rule, an.Short(f)+":go", g.Pos(), "a command is executed in a goroutine started under TaskRunner.Run: commands would overlap")
-					}
-				})
-			}
-			if _, ok := isExecCall(g); ok {
-				syncOK = false
-				c.Bad(rule, an.Short(f)+":go", g.Pos(), "Execute is started with go")
-			}
-		})
-	}
-	if syncOK {
-		c.OK(rule, an.Short(r.run)+":synchronous", r.run.Pos(), "no go statement between TaskRunner.Run and Executor.Execute (%d functions)", len(reach))
-	}
+	checkRunTable(c, "C06.4", map[string]bool{"hooks": true})
 }
 
 func compileNesting(c *an.Ctx, r *runnerRoles, rule string) {
@@ -705,70 +511,34 @@ func executorErrorIdentity(c *an.Ctx, rule string) {
 	c.Check(good, rule, an.Short(ies)+":delegates", ies.Pos(), "IsExitStatus returns interp.IsExitStatus(err) unchanged", "IsExitStatus does not return interp.IsExitStatus(err) unchanged")
 }
 
-func hookTables(c *an.Ctx, r *runnerRoles, rule string) {
-	for _, h := range []struct {
-		fn     *ssa.Function
-		field  string
-		before bool
-	}{{r.before, "Before", true}, {r.after, "After", false}} {
-		l := rangesOverTaskField(h.fn, h.field)
-		if l == nil {
-			c.Und(rule, an.Short(h.fn)+":loop", h.fn.Pos(), "no loop over t.%s", h.field)
-			continue
-		}
-		var execCall *ssa.Call
-		for b := range l.Blocks {
-			for _, in := range b.Instrs {
-				if _, ok := isExecCall(in); ok {
-					if call, ok := in.(*ssa.Call); ok {
-						execCall = call
+// runIsSynchronous: no go statement between TaskRunner.Run and Executor.Execute.
+func runIsSynchronous(c *an.Ctx, r *runnerRoles, rule string) {
+	// synchronous: no go edge from Run to Execute
+	syncOK := true
+	reach := c.P.Reach([]*ssa.Function{r.run}, func(e an.CallEdge) bool { return an.InModule(e.Callee) })
+	for f := range reach {
+		an.EachInstr(f, func(in ssa.Instruction) {
+			g, ok := in.(*ssa.Go)
+			if !ok {
+				return
+			}
+			sub := c.P.Reach(c.P.Callees(&g.Call), func(e an.CallEdge) bool { return an.InModule(e.Callee) })
+			for h := range sub {
+				an.EachInstr(h, func(y ssa.Instruction) {
+					if _, ok := isExecCall(y); ok {
+						syncOK = false
+						c.Bad(rule, an.Short(f)+":go", g.Pos(), "a command is executed in a goroutine started under TaskRunner.Run: commands would overlap")
 					}
-				}
+				})
 			}
-		}
-		if execCall == nil {
-			c.Und(rule, an.Short(h.fn)+":Execute", h.fn.Pos(), "hook loop does not execute anything")
-			continue
-		}
-		errVals := errOf(execCall)
-		for _, failing := range []bool{false, true} {
-			failing := failing
-			ex := &an.Explorer{P: c.P, NoReturn: noReturn}
-		l.Bound(ex)
-			ex.Atom = func(v ssa.Value) (an.AVal, bool) {
-				for _, e := range errVals {
-					if v == e {
-						if failing {
-							return an.AVal{K: an.ANonNil}, true
-						}
-						return an.AVal{K: an.ANil}, true
-					}
-				}
-				return an.AVal{}, false
+			if _, ok := isExecCall(g); ok {
+				syncOK = false
+				c.Bad(rule, an.Short(f)+":go", g.Pos(), "Execute is started with go")
 			}
-			outs := ex.RunFrom(h.fn, execCall, nil)
-			key := fmt.Sprintf("%s:row err=%v", an.Short(h.fn), map[bool]string{true: "non-nil", false: "nil"}[failing])
-			bad := ""
-			for _, o := range outs {
-				goesOn := o.End == "stop" && o.StopBlock == l.Header
-				switch {
-				case !failing && !goesOn:
-					bad = "a successful hook command does not lead to the next one"
-				case failing && h.before && !(o.End == "return" && o.Ret[len(o.Ret)-1].K == an.ANonNil):
-					bad = "a failing before command does not return its error at once"
-				case failing && !h.before && !goesOn:
-					bad = "a failing after command leaves the loop or returns an error (" + o.End + ")"
-				}
-			}
-			if len(outs) == 0 {
-				bad = "no feasible path"
-			}
-			if bad != "" {
-				c.Bad(rule, key, execCall.Pos(), "%s", bad)
-			} else {
-				c.OK(rule, key, execCall.Pos(), "%d paths", len(outs))
-			}
-		}
-		// the hook command executed is the loop's element
+		})
+	}
+	if syncOK {
+		c.OK(rule, an.Short(r.run)+":synchronous", r.run.Pos(), "no go statement between TaskRunner.Run and Executor.Execute (%d functions)", len(reach))
 	}
 }
+
